@@ -291,6 +291,7 @@ Qed.
 (* ------------------------------------------------------------------ the filtered complex *)
 Variable cells : list cell.
 Variables dim_max m : Z.
+Variable sw : bool.
 Definition cell_at (k : nat) : cell := nth k cells (mkcell 0 [] 0).
 (* faces come earlier and have one dimension less; an edge has two faces *)
 Definition valid : Prop := forall k, (k < length cells)%nat ->
@@ -641,7 +642,7 @@ Proof.
   - apply (P_weaken _ _ _ _ _ _ IPs); intros k H; left; exact H.
 Qed.
 
-Lemma step_inv s n : (n < length cells)%nat -> Inv s n -> Inv (step F cells dim_max m s (cell_at n)) (S n).
+Lemma step_inv s n : (n < length cells)%nat -> Inv s n -> Inv (step sw F cells dim_max m s (cell_at n)) (S n).
 Proof.
   intros Hn HI. pose proof HI as [IAs IHs IPs]. pose proof (A_len _ _ _ IAs) as Hlen.
   destruct (Hvalid n Hn) as [Hfaces Hedge].
@@ -656,9 +657,12 @@ Proof.
       intros k H. rewrite map_app in H. apply in_app_or in H. destruct H as [H|[<-|[]]]; [left; exact H|right; reflexivity].
   - (* edge *)
     specialize (Hedge eq_refl).
-    destruct (c_faces (cell_at n)) as [|v [|u [|]]] eqn:Efs; try discriminate Hedge.
-    cbn [nth].
-    destruct (Hfaces v (or_introl eq_refl)) as [Hv Hdv]. destruct (Hfaces u (or_intror (or_introl eq_refl))) as [Hu Hdu].
+    destruct (c_faces (cell_at n)) as [|f0 [|f1 [|]]] eqn:Efs; try discriminate Hedge.
+    destruct (Hfaces f0 (or_introl eq_refl)) as [Hv0 Hdv0]. destruct (Hfaces f1 (or_intror (or_introl eq_refl))) as [Hu0 Hdu0].
+    assert (Huv : exists u v, nth (if sw then 1 else 0)%nat [f0; f1] 0%nat = v /\ nth (if sw then 0 else 1)%nat [f0; f1] 0%nat = u /\
+                   (u < n)%nat /\ (v < n)%nat /\ S (dim_of cells u) = 1%nat /\ S (dim_of cells v) = 1%nat).
+    { destruct sw; cbn [nth]; [exists f0, f1|exists f1, f0]; repeat split; assumption. }
+    destruct Huv as (u & v & -> & -> & Hu & Hv & Hdu & Hdv).
     pose proof (coc_spec s n u IHs Hu ltac:(lia)) as Hcu. pose proof (coc_spec s n v IHs Hv ltac:(lia)) as Hcv.
     set (cu := coc s u) in *. set (cv := coc s v) in *.
     destruct (H_b _ _ IHs u cu Hcu) as (_ & Hcun & Hcud). destruct (H_b _ _ IHs v cv Hcv) as (_ & Hcvn & Hcvd).
@@ -730,7 +734,7 @@ Proof.
     + intros k [].
 Qed.
 
-Lemma run_inv pre : forall suf, cells = pre ++ suf -> Inv (run F cells dim_max m pre) (length pre).
+Lemma run_inv pre : forall suf, cells = pre ++ suf -> Inv (run sw F cells dim_max m pre) (length pre).
 Proof.
   unfold run. induction pre as [|c pre IH] using rev_ind; intros suf H.
   - exact Inv0.
@@ -816,13 +820,10 @@ Qed.
 End Zp.
 
 (* ------------------------------------------------------------------ statements about [pcoh] itself *)
-Definition validb (cells : list cell) : bool :=
-  forallb (fun k => let c := nth k cells (mkcell 0 [] 0) in
-                    forallb (fun f => (f <? k)%nat && (S (dim_of cells f) =? c_dim c)%nat) (c_faces c) &&
-                    (negb (c_dim c =? 1)%nat || (length (c_faces c) =? 2)%nat)) (seq 0 (length cells)).
+Definition validb := valid_b.
 Lemma validb_sound cells : validb cells = true -> valid cells.
 Proof.
-  unfold validb, valid. rewrite forallb_forall. intros H k Hk.
+  unfold validb, valid_b, valid. rewrite forallb_forall. intros H k Hk.
   specialize (H k ltac:(apply in_seq; lia)). cbv zeta in H. apply andb_true_iff in H. destruct H as [H1 H2].
   split.
   - intros f Hf. rewrite forallb_forall in H1. specialize (H1 f Hf). apply andb_true_iff in H1. destruct H1 as [A B].
@@ -838,28 +839,29 @@ Variable cells : list cell.
 Hypothesis Hv : valid cells.
 Variable flag : bool.
 Variable m : Z.
+Variable sw : bool.
 
-Lemma pcoh_cases : pcoh (zp_ops p) cells flag m = [] \/
-  pcoh (zp_ops p) cells flag m = final_pairs p (run (zp_ops p) cells (dim_max_of cells flag) m cells).
-Proof. unfold pcoh. destruct (dim_max_of cells flag <=? 0); [left|right]; reflexivity. Qed.
+Lemma pcoh_cases : pcoh_gen sw (zp_ops p) cells flag m = [] \/
+  pcoh_gen sw (zp_ops p) cells flag m = final_pairs p (run sw (zp_ops p) cells (dim_max_of cells flag) m cells).
+Proof. unfold pcoh_gen. destruct (dim_max_of cells flag <=? 0); [left|right]; reflexivity. Qed.
 
-Lemma run_all_inv : Inv p cells (run (zp_ops p) cells (dim_max_of cells flag) m cells) (length cells).
-Proof. apply (run_inv p Hp Hp16 cells (dim_max_of cells flag) m Hv cells []). symmetry. apply app_nil_r. Qed.
+Lemma run_all_inv : Inv p cells (run sw (zp_ops p) cells (dim_max_of cells flag) m cells) (length cells).
+Proof. apply (run_inv p Hp Hp16 cells (dim_max_of cells flag) m sw Hv cells []). symmetry. apply app_nil_r. Qed.
 
-Theorem pcoh_paired_once : NoDup (pair_keys (pcoh (zp_ops p) cells flag m)).
+Theorem pcoh_paired_once : NoDup (pair_keys (pcoh_gen sw (zp_ops p) cells flag m)).
 Proof.
   destruct pcoh_cases as [-> | ->]; [constructor|].
   apply (final_once p cells _ (length cells)). exact run_all_inv.
 Qed.
 
-Theorem pcoh_order : forall b d ch, In (b, Some d, ch) (pcoh (zp_ops p) cells flag m) ->
+Theorem pcoh_order : forall b d ch, In (b, Some d, ch) (pcoh_gen sw (zp_ops p) cells flag m) ->
   (b < d)%nat /\ (d < length cells)%nat /\ dim_of cells d = S (dim_of cells b) /\ ch = p.
 Proof.
   intros b d ch H. destruct pcoh_cases as [E|E]; rewrite E in H; [destruct H|].
   destruct (final_order p cells _ (length cells) run_all_inv _ H) as [(A & B & C) D]. cbn in *. repeat split; assumption.
 Qed.
 
-Theorem pcoh_essential : forall b ch, In (b, None, ch) (pcoh (zp_ops p) cells flag m) -> (b < length cells)%nat /\ ch = p.
+Theorem pcoh_essential : forall b ch, In (b, None, ch) (pcoh_gen sw (zp_ops p) cells flag m) -> (b < length cells)%nat /\ ch = p.
 Proof.
   intros b ch H. destruct pcoh_cases as [E|E]; rewrite E in H; [destruct H|].
   destruct (final_order p cells _ (length cells) run_all_inv _ H) as [A D]. cbn in *. split; assumption.
@@ -867,23 +869,23 @@ Qed.
 
 (* the cocycle invariant holds after every prefix of the filtration *)
 Theorem pcoh_cocycles : forall pre suf dim_max, cells = pre ++ suf ->
-  let s := run (zp_ops p) cells dim_max m pre in
+  let s := run sw (zp_ops p) cells dim_max m pre in
   forall t j, (t < length pre)%nat ->
     vget (bann (zp_ops p) (s_ann s) (dim_of cells t) (c_faces (nth t cells (mkcell 0 [] 0))) 0 []) j = 0.
 Proof.
   intros pre suf dim_max H s t j Ht.
   apply (cocycle_inv p Hp cells s (length pre)); [|exact Ht].
-  apply (run_inv p Hp Hp16 cells dim_max m Hv pre suf H).
+  apply (run_inv p Hp Hp16 cells dim_max m sw Hv pre suf H).
 Qed.
 
 Theorem pcoh_support : forall pre suf dim_max, cells = pre ++ suf ->
-  let s := run (zp_ops p) cells dim_max m pre in
+  let s := run sw (zp_ops p) cells dim_max m pre in
   forall t j, vget (nth t (s_ann s) []) j <> 0 ->
     In j (map fst (s_rows s)) /\ dim_of cells j = dim_of cells t /\ 0 < vget (nth t (s_ann s) []) j < p.
 Proof.
   intros pre suf dim_max H s t j Hne.
   apply (support_inv p cells s (length pre)); [|exact Hne].
-  apply (run_inv p Hp Hp16 cells dim_max m Hv pre suf H).
+  apply (run_inv p Hp Hp16 cells dim_max m sw Hv pre suf H).
 Qed.
 End Pcoh.
 
@@ -1016,5 +1018,5 @@ Example rp2_multifield :
     | None => false end) [2; 3] = true.
 Proof. vm_compute. reflexivity. Qed.
 (* the hypotheses of the theorems are satisfiable with live classes present: after the edges, before the triangles *)
-Example rp2_live_rows : length (s_rows (run (zp_ops 3) rp2_cells 3 0 (firstn 21 rp2_cells))) = 10%nat.
+Example rp2_live_rows : length (s_rows (run false (zp_ops 3) rp2_cells 3 0 (firstn 21 rp2_cells))) = 10%nat.
 Proof. vm_compute. reflexivity. Qed.
